@@ -147,33 +147,42 @@ def toy_multi_scenario(draw, cap=300, max_phases=2, allow_profile=True):
     T0 = draw(st.floats(600.0, 1000.0))
     nph = min(max_phases, draw(st.sampled_from([1, 1, 2])))
     x0 = [draw(st.floats(0.005, 0.08)), draw(st.floats(0.005, 0.08))]
+    vmA = 10 ** draw(st.floats(-5.3, -4.8))
+    cons = draw(constraints_spec())
+    total, durations = _times(draw, cons["dtScale"])
     phases = []
     for i in range(nph):
         xb = [draw(st.floats(0.1, 0.4)), draw(st.floats(0.1, 0.4))]
         # choose ln K so that the alloy is supersaturated by a factor S in the solubility product
-        S = 10 ** draw(st.floats(-0.2, 1.5))
+        if draw(st.integers(0, 5)) == 5:
+            S = 10 ** draw(st.floats(-0.2, 0.3))
+        else:
+            S = 10 ** draw(st.floats(0.3, 1.5))
         lnQ = xb[0] * math.log(x0[0]) + xb[1] * math.log(x0[1])
         lnK = lnQ - math.log(S)
         dS = draw(st.floats(0.0, 30.0))
         dH = R_GAS * T0 * (dS / R_GAS - lnK)
-        p = {"name": "P%d" % i, "xb": xb, "dH": dH, "dS": dS, "gamma": draw(st.floats(0.03, 0.3)),
-             "site": draw(st.sampled_from(["bulk", "dislocations", "grain boundaries"])), "shape": "sphere"}
-        if draw(st.integers(0, 3)) == 3:
-            p["strain"] = 10 ** draw(st.floats(6.0, 7.7))
+        vmB = vmA / draw(st.floats(0.5, 2.0))
+        dGv = R_GAS * T0 * math.log(S) / vmB
+        p = {"name": "P%d" % i, "xb": xb, "dH": dH, "dS": dS, "site": draw(st.sampled_from(["bulk", "dislocations", "grain boundaries"])), "shape": "sphere"}
+        if dGv > 0 and draw(st.integers(0, 3)) == 3:
+            p["strain"] = dGv * draw(st.floats(0.05, 0.5))
+            dGv -= p["strain"]
+        if dGv > 0:
+            g = draw(st.floats(5.0, 35.0))
+            p["gamma"] = float(min(0.6, max(0.01, (3 * dGv ** 2 * g * 1.380649e-23 * T0 / (16 * math.pi)) ** (1 / 3))))
+        else:
+            p["gamma"] = draw(st.floats(0.03, 0.3))
+        p["VmB"] = _vol(draw, vmB)
         phases.append(p)
-    vmA = 10 ** draw(st.floats(-5.3, -4.8))
-    for p in phases:
-        p["VmB"] = _vol(draw, vmA / draw(st.floats(0.5, 2.0)))
+    t_g = total * 10 ** draw(st.floats(-3.0, -1.0))
+    Dref = float(min(1e-10, max(1e-24, (3e-9) ** 2 / (2 * 0.05 * t_g))))
     Q = [draw(st.floats(150e3, 280e3)), draw(st.floats(150e3, 280e3))]
-    DT = [10 ** draw(st.floats(-20.0, -15.0)), 10 ** draw(st.floats(-20.0, -15.0))]
+    DT = [Dref * 10 ** draw(st.floats(-0.7, 0.7)), Dref * 10 ** draw(st.floats(-0.7, 0.7))]
     D0 = [d * math.exp(q / (R_GAS * T0)) for d, q in zip(DT, Q)]
-    nd = draw(st.sampled_from([1, 1, 2]))
-    total = 10 ** draw(st.floats(1.0, 6.5))
-    cuts = sorted(draw(st.floats(0.05, 0.95)) for _ in range(nd - 1))
-    edges = [0.0] + cuts + [1.0]
     sc = {"system": "toy_multi", "solutes": ["B", "C"], "phases": phases, "D0": D0, "Q": Q, "x0": x0, "VmA": _vol(draw, vmA),
-          "T": draw(temperature_spec(T0, total, allow_profile, max_span=60.0)), "pbm": draw(pbm_spec()), "constraints": draw(constraints_spec()),
-          "iterator": draw(st.sampled_from(["euler", "euler", "rk4"])), "durations": [total * (b - a) for a, b in zip(edges[:-1], edges[1:])], "cap": cap,
+          "T": draw(temperature_spec(T0, total, allow_profile, max_span=60.0)), "pbm": draw(pbm_spec()), "constraints": cons,
+          "iterator": draw(st.sampled_from(["euler", "euler", "rk4"])), "durations": durations, "cap": cap,
           "minDtFrac": draw(st.sampled_from([1e-8, 1e-8, 1e-4, 1e-3]))}
     gbs = [p for p in phases if p["site"] in KMAX]
     if gbs:
